@@ -779,6 +779,19 @@ func (e *enc) specCall(env *specEnv, n *SCall) (tval, error) {
 			return tval{}, err
 		}
 		return tval{fmt.Sprintf("(select (arr_%s %s) %s)", e.needStrSlice(), rt, iv.t), strTy, "String"}, nil
+	case "Atoi":
+		as, err := args()
+		if err != nil {
+			return tval{}, err
+		}
+		return tval{fmt.Sprintf("(AtoiV %s)", as[0].t), intTy, "Int"}, nil
+	case "After":
+		// After(s, sep): the text after the first occurrence of sep in s ("" if sep does not occur)
+		as, err := args()
+		if err != nil {
+			return tval{}, err
+		}
+		return tval{fmt.Sprintf("(ite (str.contains %[1]s %[2]s) (str.substr %[1]s (+ (str.indexof %[1]s %[2]s 0) (str.len %[2]s)) (- (str.len %[1]s) (+ (str.indexof %[1]s %[2]s 0) (str.len %[2]s)))) \"\")", as[0].t, as[1].t), strTy, "String"}, nil
 	case "TrimSpace", "TrimLeft":
 		as, err := args()
 		if err != nil {
